@@ -101,6 +101,17 @@ fn main() {
                         }
                         format!("[{}]", nodes.join("; "))
                     };
+                    if skip {
+                        // the public trait path (Revset::stream_graph) is the same walk
+                        let rs = jj_lib::revset::ResolvedRevsetExpression::commits(
+                            shown.iter().map(|&x| order[x].clone()).collect(),
+                        )
+                        .evaluate(repo.as_ref())
+                        .unwrap();
+                        let public: Vec<(CommitId, Vec<GraphEdge<CommitId>>)> =
+                            rs.stream_graph().map(|n| n.unwrap()).collect::<Vec<_>>().block_on();
+                        assert!(public == raw, "Revset::stream_graph differs from iter_graph_impl(true)");
+                    }
                     let stream_s = render(&raw, true);
                     // the adapters `jj log` puts on top of the stream
                     let topo: Vec<(CommitId, Vec<GraphEdge<CommitId>>)> = TopoGroupedGraph::new(
